@@ -32,6 +32,10 @@ type c08Scn struct {
 	// FORWARD-TSN that the caller receives while it is already shutting down
 	PeerPR int `json:"peerpr,omitempty"`
 	PollMs int `json:"pollms,omitempty"` // readers poll with read deadlines of this length instead of blocking
+	// Out: an outage: (direction 0 / 1 / 2 = both, first packet index after the call, number of
+	// consecutive packets lost); long ones outlast several retransmission rounds of the
+	// shutdown sequence
+	Out [3]int `json:"out,omitempty"`
 }
 
 func (x c08Scn) e1() vfE1 {
@@ -59,6 +63,17 @@ func (x c08Scn) e1() vfE1 {
 			sc.Faults.Pos[side][idx].Dup = 1
 		case 3:
 			sc.Faults.Pos[side][idx].DelayMs = 1500
+		}
+	}
+	for side := 0; side < 2; side++ {
+		if x.Out[2] == 0 || (x.Out[0] != 2 && x.Out[0] != side) {
+			continue
+		}
+		for idx := x.Out[1]; idx < x.Out[1]+x.Out[2]; idx++ {
+			for len(sc.Faults.Pos[side]) <= idx {
+				sc.Faults.Pos[side] = append(sc.Faults.Pos[side], vfFD{})
+			}
+			sc.Faults.Pos[side][idx] = vfFD{Drop: true}
 		}
 	}
 	return sc
@@ -97,6 +112,9 @@ func genC08(rt *rapid.T) c08Scn {
 	}
 	if rapid.IntRange(0, 3).Draw(rt, "ctx") == 0 {
 		x.CtxMs = rapid.SampledFrom([]int{1, 15, 30, 300, 3000}).Draw(rt, "ctxms")
+	}
+	if rapid.IntRange(0, 3).Draw(rt, "outage") == 0 {
+		x.Out = [3]int{rapid.IntRange(0, 2).Draw(rt, "oside"), rapid.IntRange(0, 6).Draw(rt, "ofrom"), rapid.SampledFrom([]int{3, 6, 7, 9, 14, 25}).Draw(rt, "olen")}
 	}
 	nf := rapid.IntRange(0, 6).Draw(rt, "nf")
 	seen := map[[2]int]bool{}
@@ -164,7 +182,7 @@ func runC08(t *testing.T, x c08Scn, verbose bool) vfCase {
 				b := s.as[1-x.Caller]
 				calls[1-x.Caller] = s.spawn("shutdown", 1-x.Caller, func() error { return b.Shutdown(contextBackground()) })
 			}
-			bound := 4*vfMaxRTOMax(&sc) + 30*time.Second + time.Duration(len(x.Writes))*2*time.Second
+			bound := 4*vfMaxRTOMax(&sc) + 30*time.Second + time.Duration(len(x.Writes))*2*time.Second + time.Duration(2*x.Out[2])*vfMaxRTOMax(&sc)
 			callerDone := func() bool {
 				s.mu.Lock()
 				defer s.mu.Unlock()
@@ -324,6 +342,11 @@ func runC08(t *testing.T, x c08Scn, verbose bool) vfCase {
 	}
 	if x.Crossed {
 		c.class("crossed")
+	}
+	if x.Out[2] >= 6 {
+		c.class("outage-of-6-or-more-packets")
+	} else if x.Out[2] > 0 {
+		c.class("short-outage")
 	}
 	c.class(fmt.Sprintf("%d-faults", len(x.F)))
 	c.Nontrivial = (outstandingAtCall > 0 && shutFault) || x.Crossed
